@@ -1,4 +1,138 @@
-From Coq Require Import ZArith List.
-From PAFC15 Require Import Model.
-Theorem C15_stub : eval cfg_current (Leaf 0 false) = VSingle 0 false.
-Proof. exact eq_refl. Qed.
+(* C15 property theorems: statements only, each closed by `exact`.
+
+   The model is parametrised by `cfg` = which of the four proposed repairs the code contains.
+   `cfg_current` (all false) is the pinned tree, `cfg_fixed` the tree with every repair applied.
+   For the pinned tree the applicable statements are the `_partial` ones (explicit guards) next to
+   the `_refuted` ones (witnesses replayed on the implementation, known_findings/C15.json);
+   statements about `cfg_fixed` / `drain = true` / `fix_map c = true` describe the repaired code. *)
+From Coq Require Import ZArith List Bool Arith.
+From PAFC15 Require Import Model Proofs1 Proofs2 Proofs3 Witness.
+Import ListNotations.
+
+(* ---- C15_sum: the value of a sum -------------------------------------------------------------- *)
+
+(* serial evaluation is the sum of every analysis' likelihood (raising iff one of them raises) *)
+Theorem C15_sum_serial : forall (A X : Type) (ev : A -> X -> res) (l : list A) (x : X),
+  serial ev l x = spec_sum ev l x.
+Proof. exact @serial_spec. Qed.
+
+(* every bracketing of + (and sum([...])) holds the analyses in the order written, as a
+   CombinedModelAnalysis iff one of them carries a model, member i reading sub-instance i *)
+Theorem C15_flatten : forall e : expr, eval cfg_fixed e = spec_struct e.
+Proof. exact flatten_fixed. Qed.
+
+Theorem C15_flatten_partial : forall (c : cfg) (e : expr), guard c e = true -> eval c e = spec_struct e.
+Proof. exact flatten_ok. Qed.
+
+Theorem C15_flatten_order_refuted : exists e : expr, eval (mkCfg false true true true) e <> spec_struct e.
+Proof. exact flatten_order_refuted. Qed.
+
+Theorem C15_flatten_models_refuted : exists e : expr, eval (mkCfg true false true true) e <> spec_struct e.
+Proof. exact flatten_models_refuted. Qed.
+
+Theorem C15_member_i : forall (k : ckind) (l : list (nat * bool)) (i j : nat) (h : bool),
+  nth_error l i = Some (j, h) ->
+  nth_error (spec_items k l) i = Some (match k with KPlain => IPlain j h | _ => IIdx j h i end).
+Proof. exact spec_items_nth. Qed.
+
+Theorem C15_with_free_members : forall (c : cfg) (k : ckind) (l : list (nat * bool)),
+  with_free c (VComb k (spec_items k l)) = VComb KFree (spec_items KFree l).
+Proof. exact with_free_spec. Qed.
+
+(* the i-th analysis of an indexed collection is evaluated on the i-th sub-instance, a member of a
+   plain sum on the instance itself *)
+Theorem C15_sub_instance : forall (S : Type) (lik : nat -> S -> res) (its : list item) (i : nat) (it : item)
+    (w : S) (parts : list S) (s : S),
+  nth_error its i = Some it -> nth_error parts i = Some s ->
+  exists it', nth_error (reindex_from 0 its) i = Some it' /\ item_id it' = item_id it
+              /\ item_lik lik it' (w, parts) = lik (item_id it) s.
+Proof. exact @indexed_sub_instance. Qed.
+
+(* ---- C15_history_free: pool = serial, for every schedule, partition and history ----------------- *)
+
+Theorem C15_partition : forall (A : Type) (cores : nat) (l : list A), 1 <= cores -> concat (split_procs cores l) = l.
+Proof. exact @split_concat. Qed.
+
+(* one evaluation on a pool with nothing pending, any schedule `masks`, pinned or repaired results() *)
+Theorem C15_pool_sum : forall (A X : Type) (ev : A -> X -> res) (drain : bool) (l : list A) (procs : list (list A))
+    (x : X) (masks : list (list bool)) (qs : list (list res)),
+  concat procs = l -> concat qs = [] -> length qs = length procs ->
+  exists qs', pool_call ev drain (length l) procs x masks qs = Some (spec_sum ev l x, qs')
+              /\ length qs' = length procs
+              /\ ((drain = true \/ existsb (raises ev x) l = false) -> concat qs' = []).
+Proof. exact @pool_call_clean. Qed.
+
+(* repaired results(): every answer of every history (evaluations with arbitrary schedules, raising
+   evaluations, changes of n_cores) is the sum on its own instance *)
+Theorem C15_history_free : forall (A X : Type) (ev : A -> X -> res) (l : list A) (ops : list (op (X := X))),
+  snd (run ev true l st_init ops) = map (fun x => Some (spec_sum ev l x)) (evals ops).
+Proof. exact @history_free_fixed. Qed.
+
+Theorem C15_cores_independent : forall (A X : Type) (ev : A -> X -> res) (l : list A) (ops ops' : list (op (X := X))),
+  evals ops = evals ops' -> snd (run ev true l st_init ops) = snd (run ev true l st_init ops').
+Proof. exact @cores_independent_fixed. Qed.
+
+(* pinned results(): the same for every answer not preceded, since the pool was created, by a raising
+   evaluation of that pool (`guarded` yields None exactly for the others) *)
+Theorem C15_history_free_partial : forall (A X : Type) (ev : A -> X -> res) (drain : bool) (l : list A)
+    (ops : list (op (X := X))),
+  Forall2 meets (guarded ev drain l 1 false ops) (snd (run ev drain l st_init ops)).
+Proof. exact @history_free_partial. Qed.
+
+Theorem C15_history_free_refuted : exists (l : list nat) (ops : list (op (X := Z))),
+  snd (run w_ev false l st_init ops) <> map (fun x => Some (spec_sum w_ev l x)) (evals ops).
+Proof. exact history_free_refuted. Qed.
+
+(* without a pool no history matters, pinned or repaired *)
+Theorem C15_history_free_serial : forall (A X : Type) (ev : A -> X -> res) (drain : bool) (l : list A)
+    (ops : list (op (X := X))) (s : st (A := A)),
+  (forall k, In (OCores k) ops -> k <= 1) -> s_cores s <= 1 ->
+  snd (run ev drain l s ops) = map (fun x => Some (spec_sum ev l x)) (evals ops).
+Proof. exact @serial_history. Qed.
+
+(* ---- C15_free_params: the fitted model --------------------------------------------------------- *)
+
+Theorem C15_free_model_i : forall (free : list nat) (n : nat) (m : list nat) (i : nat),
+  i < n -> nth_error (modify_free free n m) i = Some (map (slot_id free i) m).
+Proof. exact free_nth. Qed.
+
+(* one independent copy per analysis of every free parameter, a single shared copy of the others *)
+Theorem C15_free_sharing : forall (free : list nat) (i i' p p' : nat),
+  slot_id free i p = slot_id free i' p' <-> p = p' /\ (In p free -> i = i').
+Proof. exact slot_sharing. Qed.
+
+Theorem C15_free_params : forall (free : list nat) (n : nat) (m : list nat), 1 <= n ->
+  prior_count (modify_free free n m) = length (free_in free m) * n + length (shared_in free m).
+Proof. exact free_count. Qed.
+
+Theorem C15_own_model_i : forall (default : list nat) (own : list (list nat)) (its : list item) (i : nat) (it : item),
+  nth_error its i = Some it ->
+  nth_error (modify_models default own its) i = Some (map Orig (if item_hm it then nth (item_id it) own [] else default)).
+Proof. exact models_nth. Qed.
+
+(* ---- C15_child_i: child results and folders ----------------------------------------------------- *)
+
+Theorem C15_child_i : forall (M B : Type) (models : list M) (analyses : list B) (i : nat) (m : M) (a : B),
+  nth_error (children models analyses) i = Some (m, a) <-> nth_error models i = Some m /\ nth_error analyses i = Some a.
+Proof. exact @children_nth. Qed.
+
+Theorem C15_folder_i_serial : forall (B : Type) (l : list B) (i : nat),
+  nth_error (folders_serial l) i = option_map (fun b => (i, b)) (nth_error l i).
+Proof. exact @folders_serial_nth. Qed.
+
+Theorem C15_folder_i_pool : forall (B : Type) (c : cfg) (cores : nat) (l : list B),
+  fix_map c = true -> folders c cores l = folders_serial l.
+Proof. exact @folders_fixed. Qed.
+
+Theorem C15_folder_i_pool_partial : forall (B : Type) (c : cfg) (cores : nat) (l : list B),
+  length l <= cores -> folders c cores l = folders_serial l.
+Proof. exact @folders_partial. Qed.
+
+Theorem C15_folder_i_pool_refuted : exists (l : list nat) (cores : nat), folders cfg_current cores l <> folders_serial l.
+Proof. exact folders_refuted. Qed.
+
+Print Assumptions C15_flatten_partial.
+Print Assumptions C15_history_free.
+Print Assumptions C15_history_free_partial.
+Print Assumptions C15_free_params.
+Print Assumptions C15_folder_i_pool_partial.
